@@ -16,6 +16,10 @@ STR_LOOKALIKE = [
     '1.5', '1.', '.5', '1e5', '+1e3', '1E5', '-.5e-3', '1.5e+10', '1_000.5',
     '1:30.5', '.inf', '-.inf', '.Inf', '.INF', '.nan', '.NaN', '.NAN', '-.nan',
     '1e', '1.2.3', 'inf', 'nan', '1e400',
+    # number look-alikes with digits that are no ASCII digits (Arabic-Indic,
+    # fullwidth, Devanagari) behind an ASCII first character
+    '1.\u0665', '1e\uff15', '-.\uff15', '.\u0665', '3\u0968.5', '2E-\uff13',
+    '1\u0663', '+\u0661\u0662', '0x\uff11', 'true\u200b', 'tru\u0435',
     # bools 1.1 and 1.2
     'true', 'True', 'TRUE', 'false', 'False', 'FALSE', 'yes', 'Yes', 'YES',
     'no', 'No', 'NO', 'on', 'On', 'ON', 'off', 'Off', 'OFF', 'y', 'Y', 'n',
